@@ -29,6 +29,8 @@ for pid, s, cf in res:
     src = os.path.join(prefix + pid, 'SEED', s)
     dst = os.path.join(HERE, 'seeded', key)
     os.makedirs(dst, exist_ok=True)
+    if not os.path.exists(os.path.join(src, 'notes.md')):
+        print(key, 'notes.md missing - agent not finished?'); continue
     for fn in ('patch.diff', 'demo.py', 'notes.md'):
         shutil.copy(os.path.join(src, fn), os.path.join(dst, fn))
     notes = open(os.path.join(src, 'notes.md')).read()
